@@ -81,6 +81,7 @@ type refCase struct {
 	Violation string `json:"violation,omitempty"`
 	Site      int    `json:"site,omitempty"`
 	Bytes     bool   `json:"bytes_variant,omitempty"`
+	Prefill   uint64 `json:"destination_prefilled_with_seed,omitempty"` // C06: the destination held another value before
 }
 
 func refValue(c refCase) (*refcodec.Resolver, *schemagen.Comb, *refcodec.Value, []byte, *pbt.Result) {
@@ -143,6 +144,13 @@ func checkC06(reg *Registry, c refCase) pbt.Result {
 		return refUnsupported(err)
 	}
 	obj := Create(it, c.Bytes)
+	if c.Prefill != 0 && c.Violation == "" {
+		// what a form denotes does not depend on what the destination held before (a form that leaves something out
+		// means the empty value, not "keep the old content")
+		if e := call("FillRandom", func() { obj.FillRandom(NewGenerator(c.Prefill, 2)) }); e != nil {
+			obj = Create(it, c.Bytes)
+		}
+	}
 	rerr := readJSON(obj, text, JSONOpts{})
 	if rerr != nil && strings.Contains(rerr.Error(), "panicked") {
 		return pbt.Fail("%s: the JSON reader on %s: %v", c.Item, strHead(text), rerr)
@@ -167,6 +175,9 @@ func checkC06(reg *Registry, c refCase) pbt.Result {
 		return pbt.Fail("%s: JSON form (alternatives used: %v) does not denote the same value: %s\n  json      %s\n  read as   %s\n  reference %s", c.Item, o.Alts, diffAt(want, got), strHead(text), hexHead(got), hexHead(want))
 	}
 	cls := []string{"accepted"}
+	if c.Prefill != 0 {
+		cls = append(cls, "destination-held-another-value")
+	}
 	for k := range o.Alts {
 		cls = append(cls, "alt-"+k)
 	}
@@ -189,6 +200,9 @@ func genRefCase(rt *rapid.T, items []Item, neg bool) refCase {
 		AltPct: rapid.SampledFrom([]int{0, 10, 30, 60}).Draw(rt, "altpct")}
 	if hasBytesVariant(it) {
 		c.Bytes = rapid.Bool().Draw(rt, "bytes")
+	}
+	if neg && rapid.IntRange(0, 2).Draw(rt, "prefill") == 0 {
+		c.Prefill = rapid.Uint64Range(1, 1<<62).Draw(rt, "prefillseed")
 	}
 	if neg && rapid.IntRange(0, 3).Draw(rt, "negative") == 0 {
 		c.Violation = rapid.SampledFrom(violations).Draw(rt, "violation")
@@ -316,6 +330,47 @@ func checkC11(reg *Registry, c wireCase) pbt.Result {
 			return pbt.Fail("%s: reference TL2 bytes %s are read as another value: TL1 %s\n  generated %s\n  reference %s", c.Item, hexHead(want2), diffAt(want1, got), hexHead(got), hexHead(want1))
 		}
 		return pbt.Result{NonTrivial: len(want2) >= 6, Classes: cls}
+	case "tl2-bad-variant":
+		if !it.HasTL2() {
+			return pbt.Result{Classes: []string{"format-not-generated"}}
+		}
+		_, _, v, _, bad := refValue(c.refCase)
+		if bad != nil {
+			return *bad
+		}
+		count := &refcodec.BadVariant{Site: -1}
+		refcodec.TL2Bad = count
+		_, err := r.TL2Top(comb, v)
+		refcodec.TL2Bad = nil
+		if err != nil {
+			if u, ok := err.(refcodec.Unsupported); ok {
+				return pbt.Result{Classes: []string{"reference-tl2-does-not-model: " + u.What}}
+			}
+			return pbt.Result{Err: fmt.Errorf("harness: reference TL2 writer: %v", err)}
+		}
+		// the item itself may be one constructor of a union: its own reader is that variant's and does not look at the
+		// index; the statement is about union-typed objects inside the value
+		first := 0
+		if !comb.IsFunc && r.IsUnionMember(comb) {
+			first = 1
+		}
+		if count.Seen <= first {
+			return pbt.Result{Classes: []string{"no-union-in-the-value"}}
+		}
+		placed := &refcodec.BadVariant{Site: first + c.Site%(count.Seen-first)}
+		refcodec.TL2Bad = placed
+		enc, err := r.TL2Top(comb, v)
+		refcodec.TL2Bad = nil
+		if err != nil || !placed.Applied {
+			return pbt.Result{Classes: []string{"no-union-in-the-value"}}
+		}
+		obj := Create(it, c.Bytes)
+		if _, err := readTL2(obj, enc); err == nil {
+			return pbt.Fail("%s: the generated TL2 reader accepts an object whose variant index equals the number of variants (union object %d of the value): %s", c.Item, placed.Site, hexHead(enc))
+		} else if strings.Contains(err.Error(), "panicked") {
+			return pbt.Fail("%s: the generated TL2 reader on %s: %v", c.Item, hexHead(enc), err)
+		}
+		return pbt.Result{NonTrivial: true, Classes: []string{"tl2-bad-variant-rejected"}}
 	case "gen-to-ref", "mutated":
 		obj, _, err := reg.Make(c.Val)
 		if err != nil {
@@ -365,11 +420,14 @@ func propC11(t *testing.T, reg *Registry) {
 		return
 	}
 	pbt.Run(t, "reference-codec/"+reg.SetName, perType(len(items), 200, 5000), func(rt *rapid.T) wireCase {
-		c := wireCase{Dir: rapid.SampledFrom([]string{"ref-to-gen", "ref-to-gen", "json-bridge", "gen-to-ref", "mutated", "mutated", "tl2-write", "tl2-write", "tl2-read"}).Draw(rt, "dir")}
+		c := wireCase{Dir: rapid.SampledFrom([]string{"ref-to-gen", "ref-to-gen", "json-bridge", "gen-to-ref", "mutated", "mutated", "tl2-write", "tl2-write", "tl2-read", "tl2-bad-variant"}).Draw(rt, "dir")}
 		switch c.Dir {
-		case "ref-to-gen", "json-bridge", "tl2-write", "tl2-read":
+		case "ref-to-gen", "json-bridge", "tl2-write", "tl2-read", "tl2-bad-variant":
 			c.refCase = genRefCase(rt, items, false)
 			c.refCase.AltPct, c.refCase.AltSeed = 0, 0
+			if c.Dir == "tl2-bad-variant" {
+				c.refCase.Site = rapid.IntRange(0, 50).Draw(rt, "site")
+			}
 		default:
 			c.Val = genVal(rt, items, false)
 			c.Item = c.Val.Item
